@@ -91,6 +91,8 @@ def run(ctx):
         runs = runs[ctx.seed % stride::stride]
         ctx.exhaustive = False
     traces = core.pmap(cc.record, runs, chunk=100)
+    ctx.notes["runs_refused_for_their_element_type"] = sum(1 for tr in traces if tr.get("rejected_input"))
+    traces = [tr for tr in traces if not tr.get("rejected_input")]
     for tr in traces:
         ncent = max([len(e.get("ctrIdx", [])) for e in tr["events"]] + [0])
         nontriv = ncent >= 2 and ncent < len(tr["pts"])
